@@ -362,3 +362,13 @@ def test_fixed_F38_softmax_sampler_at_a_small_temperature():
     from msdm.algorithms.tdlearning import epsilon_softmax_sample
     assert epsilon_softmax_sample({'left': -9.0, 'right': -8.0}, 0.0, 0.01, random.Random(0)) == 'right'
     assert epsilon_softmax_sample({'left': 900.0, 'right': 800.0}, 0.0, 0.01, random.Random(0)) == 'left'
+
+
+def test_fixed_F41_F42_numpy_weights_and_augmented_mixture():
+    from msdm.core.mdp import TabularPolicy
+    pol = TabularPolicy.from_state_action_lists(state_list=['s0', 's1'], action_list=['a', 'b'], data=np.array([[.25, .75], [1., 0.]]))
+    mix = np.float64(.5) * pol['s0'] | np.float64(.5) * pol['s1']
+    assert dict(mix) == pytest.approx({'a': .625, 'b': .375})
+    d = DictDistribution({'a': .5, 'b': .5})
+    d |= DictDistribution({'a': .5})
+    assert dict(d) == {'a': 1.0, 'b': .5}
